@@ -1386,7 +1386,7 @@ def cast_types(v):
 
 
 def subtrees(v):
-    if isinstance(v, tuple):
+    if isinstance(v, tuple) and v:
         yield v
         for x in v:
             if isinstance(x, tuple):
